@@ -7,6 +7,22 @@
 // a guarded struct field (guard map read from coq/Model/Guards.v), the
 // acquired-while-held pairs, and what it could not resolve.
 //
+// Round 4: an external blocking resource is an ABSTRACT lock of the table.  A
+// bbolt write transaction holds the database's single writer lock
+// (bbolt.DB.rwlock, a sync.Mutex) from db.Begin(true) to tx.Commit() /
+// tx.Rollback(); db.Update(fn) / db.Batch(fn) hold it around fn; db.Close()
+// takes and drops it.  The abstract lock is named after the field that holds
+// the database ("stats.StatsCtx.db.writer", "home.Auth.db.writer", ...) and is
+// used in write mode only.  Read transactions (Begin(false), View) do not take
+// the writer lock and are left out (they hold bbolt's mmap lock in read mode,
+// which a committing writer needs only when the file has to grow); they are
+// counted in the side output.  A transaction or database value the translator
+// cannot trace back to a field is reported as unresolved ("bbolt-tx@fn").
+// Besides the acquired-while-held PAIRS (sync mutexes only, as before) the
+// translator now emits every ACQUISITION SITE with the complete set of locks
+// held there, abstract ones included (coq/Gen/LockTableAcq.v): that is what
+// the gate-lock criterion of Proofs/LockTableGate.v is evaluated on.
+//
 // Approximations (all named in DESIGN.md, C05): locks and fields are identified
 // by (named struct type, field name), i.e. all instances of a type are
 // conflated; function values are resolved field-/parameter-based; code outside
@@ -150,6 +166,11 @@ type fnInfo struct {
 	in       map[*ssa.BasicBlock]relState
 	exit     relState
 	sites    []site
+	// abstract transaction locks this function acquires itself (Begin(true)):
+	// a second Commit / Rollback of such a transaction (`defer tx.Rollback()`
+	// after an explicit Commit) is a no-op in bbolt and must not count as the
+	// release of a lock of the caller
+	txLocal set
 }
 
 type analysis struct {
@@ -168,6 +189,9 @@ type analysis struct {
 	fvChanged   bool
 	ptrBind     map[*ssa.Parameter]map[string]bool // pointer parameter -> guarded fields it may point to
 	lockBind    map[*ssa.Parameter]map[string]bool // mutex parameter -> locks passed for it
+	txBind      map[*ssa.Parameter]map[string]bool // *bbolt.Tx / *bbolt.DB parameter -> abstract locks passed for it
+	abstract    map[string]string                  // abstract lock -> what it stands for
+	readTxns    map[string]string                  // read transactions met (left out), by position
 	addrEscapes map[string]string
 	byStruct    map[string][]string // "pkg.Type" -> guarded field keys
 	unresolved  map[string]string   // key -> description
@@ -329,6 +353,310 @@ func (a *analysis) resolveLock(v ssa.Value) string {
 		}
 	}
 	return ""
+}
+
+// ---------------------------------------------------------------- bbolt transactions (abstract locks)
+
+const bboltPkg = "go.etcd.io/bbolt"
+
+type bboltOp int
+
+const (
+	bbNone bboltOp = iota
+	bbBegin
+	bbCommit
+	bbRollback
+	bbUpdate
+	bbBatch
+	bbView
+	bbClose
+)
+
+func bboltOpOf(c *ssa.CallCommon) bboltOp {
+	fn := c.StaticCallee()
+	if fn == nil {
+		return bbNone
+	}
+	switch fn.String() {
+	case "(*" + bboltPkg + ".DB).Begin":
+		return bbBegin
+	case "(*" + bboltPkg + ".Tx).Commit":
+		return bbCommit
+	case "(*" + bboltPkg + ".Tx).Rollback":
+		return bbRollback
+	case "(*" + bboltPkg + ".DB).Update":
+		return bbUpdate
+	case "(*" + bboltPkg + ".DB).Batch":
+		return bbBatch
+	case "(*" + bboltPkg + ".DB).View":
+		return bbView
+	case "(*" + bboltPkg + ".DB).Close":
+		return bbClose
+	}
+	return bbNone
+}
+
+func isBboltPtr(t types.Type, name string) bool {
+	pt, ok := t.Underlying().(*types.Pointer)
+	if !ok {
+		return false
+	}
+	return pt.Elem().String() == bboltPkg+"."+name
+}
+
+// cellStores: the values stored into a local variable kept in memory (captured
+// by a closure or address-taken); al is the cell, possibly seen from a closure
+// as a free variable.
+func cellStores(v ssa.Value) (vals []ssa.Value, ok bool) {
+	switch x := v.(type) {
+	case *ssa.Alloc:
+		if x.Referrers() == nil {
+			return nil, false
+		}
+		for _, r := range *x.Referrers() {
+			if st, isStore := r.(*ssa.Store); isStore && st.Addr == ssa.Value(x) {
+				vals = append(vals, st.Val)
+			}
+		}
+		return vals, true
+	case *ssa.FreeVar:
+		fn := x.Parent()
+		par := fn.Parent()
+		if par == nil {
+			return nil, false
+		}
+		idx := -1
+		for i, fv := range fn.FreeVars {
+			if fv == x {
+				idx = i
+			}
+		}
+		found := false
+		for _, b := range par.Blocks {
+			for _, ins := range b.Instrs {
+				mc, isMC := ins.(*ssa.MakeClosure)
+				if !isMC || mc.Fn != ssa.Value(fn) || idx < 0 || idx >= len(mc.Bindings) {
+					continue
+				}
+				vs, ok := cellStores(mc.Bindings[idx])
+				if !ok {
+					return nil, false
+				}
+				vals = append(vals, vs...)
+				found = true
+			}
+		}
+		return vals, found
+	}
+	return nil, false
+}
+
+// agree: all non-empty names are the same one.
+func agree(names []string) string {
+	res := ""
+	for _, n := range names {
+		if n == "" || (res != "" && n != res) {
+			return ""
+		}
+		res = n
+	}
+	return res
+}
+
+// resolveDB names the abstract writer lock of the bbolt database denoted by v:
+// the struct field the database is kept in (directly, or behind an
+// atomic.Pointer read with Load / Swap), followed through local variables,
+// captured variables and parameters bound at every call site to one database.
+func (a *analysis) resolveDB(v ssa.Value, depth int) string {
+	if depth > 8 {
+		return ""
+	}
+	name := func(fa *ssa.FieldAddr) string {
+		k := a.fieldKey(fa)
+		if k == "" {
+			return ""
+		}
+		k += ".writer"
+		if a.abstract != nil {
+			a.abstract[k] = "bbolt write transaction on the database kept in " + strings.TrimSuffix(k, ".writer") + " (bbolt.DB.rwlock: Begin(true) / Update / Batch until Commit / Rollback; Close)"
+		}
+		return k
+	}
+	switch x := v.(type) {
+	case *ssa.Call:
+		if f := x.Call.StaticCallee(); f != nil && len(x.Call.Args) > 0 {
+			fs := f.String()
+			mn := f.Name()
+			if i := strings.Index(mn, "["); i > 0 { // instantiated generic: Load[bbolt.DB]
+				mn = mn[:i]
+			}
+			if strings.HasPrefix(fs, "(*sync/atomic.Pointer["+bboltPkg+".DB]).") && (mn == "Load" || mn == "Swap") {
+				if fa, ok := x.Call.Args[0].(*ssa.FieldAddr); ok {
+					return name(fa)
+				}
+			}
+		}
+	case *ssa.UnOp:
+		if x.Op != token.MUL {
+			return ""
+		}
+		switch y := x.X.(type) {
+		case *ssa.FieldAddr:
+			return name(y)
+		case *ssa.Alloc, *ssa.FreeVar:
+			vals, ok := cellStores(y)
+			if !ok || len(vals) == 0 {
+				return ""
+			}
+			var ns []string
+			for _, w := range vals {
+				if c, isConst := w.(*ssa.Const); isConst && c.IsNil() {
+					continue
+				}
+				ns = append(ns, a.resolveDB(w, depth+1))
+			}
+			return agree(ns)
+		}
+	case *ssa.Phi:
+		var ns []string
+		for _, e := range x.Edges {
+			if c, isConst := e.(*ssa.Const); isConst && c.IsNil() {
+				continue
+			}
+			ns = append(ns, a.resolveDB(e, depth+1))
+		}
+		return agree(ns)
+	case *ssa.Parameter:
+		if m := a.txBind[x]; len(m) == 1 {
+			for k := range m {
+				return k
+			}
+		}
+	}
+	return ""
+}
+
+// resolveTx names the abstract lock held by the transaction v: found through
+// the Begin call that created it.  ro: v is a read transaction (no lock).
+func (a *analysis) resolveTx(v ssa.Value, depth int) (name string, ro bool) {
+	if depth > 8 {
+		return "", false
+	}
+	many := func(vals []ssa.Value) (string, bool) {
+		var ns []string
+		allRO := len(vals) > 0
+		for _, w := range vals {
+			if c, isConst := w.(*ssa.Const); isConst && c.IsNil() {
+				continue
+			}
+			n, r := a.resolveTx(w, depth+1)
+			if !r {
+				allRO = false
+				ns = append(ns, n)
+			}
+		}
+		if allRO {
+			return "", true
+		}
+		return agree(ns), false
+	}
+	switch x := v.(type) {
+	case *ssa.Extract:
+		call, ok := x.Tuple.(*ssa.Call)
+		if !ok || x.Index != 0 || bboltOpOf(call.Common()) != bbBegin || len(call.Call.Args) < 2 {
+			return "", false
+		}
+		if c, isConst := call.Call.Args[1].(*ssa.Const); isConst && c.Value != nil {
+			if c.Value.ExactString() == "false" {
+				return "", true
+			}
+			return a.resolveDB(call.Call.Args[0], depth+1), false
+		}
+		return "", false
+	case *ssa.UnOp:
+		if x.Op != token.MUL {
+			return "", false
+		}
+		switch y := x.X.(type) {
+		case *ssa.Alloc, *ssa.FreeVar:
+			vals, ok := cellStores(y)
+			if !ok {
+				return "", false
+			}
+			return many(vals)
+		}
+	case *ssa.Phi:
+		return many(x.Edges)
+	case *ssa.Parameter:
+		if m := a.txBind[x]; len(m) == 1 {
+			for k := range m {
+				return k, false
+			}
+		}
+	}
+	return "", false
+}
+
+// bindTxParams: which abstract lock a *bbolt.Tx / *bbolt.DB parameter denotes
+// (`finishTxn(tx, commit)`): context-insensitive, to a fixpoint; a parameter
+// that receives transactions of two databases stays unresolved.
+func (a *analysis) bindTxParams() {
+	a.txBind = map[*ssa.Parameter]map[string]bool{}
+	for changed, iter := true, 0; changed && iter < 10; iter++ {
+		changed = false
+		for _, fn := range a.order {
+			for _, b := range fn.Blocks {
+				for _, ins := range b.Instrs {
+					ci, ok := ins.(ssa.CallInstruction)
+					if !ok {
+						continue
+					}
+					c := ci.Common()
+					var targets []*ssa.Function
+					if g := c.StaticCallee(); g != nil && !c.IsInvoke() {
+						targets = []*ssa.Function{g}
+					} else if !c.IsInvoke() {
+						if _, isBuiltin := c.Value.(*ssa.Builtin); !isBuiltin {
+							fs, _ := a.funcsOf(c.Value, 0)
+							for g := range fs {
+								targets = append(targets, g)
+							}
+						}
+					}
+					for _, g := range targets {
+						if !a.inRepo(g) {
+							continue
+						}
+						for i, arg := range c.Args {
+							if i >= len(g.Params) {
+								break
+							}
+							name := ""
+							switch {
+							case isBboltPtr(arg.Type(), "Tx"):
+								name, _ = a.resolveTx(arg, 0)
+							case isBboltPtr(arg.Type(), "DB"):
+								name = a.resolveDB(arg, 0)
+							default:
+								continue
+							}
+							if name == "" {
+								continue
+							}
+							prm := g.Params[i]
+							if a.txBind[prm] == nil {
+								a.txBind[prm] = map[string]bool{}
+							}
+							if !a.txBind[prm][name] {
+								a.txBind[prm][name] = true
+								changed = true
+							}
+						}
+					}
+				}
+			}
+		}
+	}
 }
 
 // ---------------------------------------------------------------- function values
@@ -702,6 +1030,87 @@ func (a *analysis) summary(f *ssa.Function) relState {
 }
 
 func (a *analysis) applyCall(fi *fnInfo, st relState, ins ssa.Instruction, c *ssa.CallCommon, rec func(site)) relState {
+	txHeld := -1 // abstract lock held around the closures of db.Update / db.Batch
+	if bop := bboltOpOf(c); bop != bbNone {
+		unres := func(what string) {
+			if a.collecting {
+				a.unresolved["bbolt-tx@"+a.fnName(fi.fn)+"@"+what] = a.posStr(ins.Pos())
+			}
+		}
+		switch bop {
+		case bbBegin:
+			if len(c.Args) < 2 {
+				return st
+			}
+			wr, isConst := c.Args[1].(*ssa.Const)
+			if !isConst || wr.Value == nil {
+				unres("Begin with a writable flag that is not a constant")
+				return st
+			}
+			if wr.Value.ExactString() == "false" {
+				if a.collecting {
+					a.readTxns[a.posStr(ins.Pos())] = a.fnName(fi.fn)
+				}
+				return st
+			}
+			name := a.resolveDB(c.Args[0], 0)
+			if name == "" {
+				unres("Begin(true) on a database that is not traced to a field")
+				return st
+			}
+			id := lmID(lm{name, true})
+			fi.txLocal = fi.txLocal.with(id)
+			if rec != nil {
+				rec(site{kind: siteAcquire, st: st, pos: ins.Pos(), acq: id})
+			}
+			return st.acquire(id)
+		case bbCommit, bbRollback:
+			name, ro := a.resolveTx(c.Args[0], 0)
+			if ro {
+				return st
+			}
+			if name == "" {
+				unres("Commit / Rollback of a transaction that is not traced to its Begin")
+				return st
+			}
+			return st.release(lmID(lm{name, true}))
+		case bbView:
+			if a.collecting {
+				a.readTxns[a.posStr(ins.Pos())] = a.fnName(fi.fn)
+			}
+			// the closure runs during the call: generic handling below
+		case bbClose:
+			name := a.resolveDB(c.Args[0], 0)
+			if name == "" {
+				unres("Close of a database that is not traced to a field")
+				return st
+			}
+			// waits for the writer lock and drops it again
+			if rec != nil {
+				rec(site{kind: siteAcquire, st: st, pos: ins.Pos(), acq: lmID(lm{name, true})})
+			}
+			return st
+		case bbUpdate, bbBatch:
+			name := a.resolveDB(c.Args[0], 0)
+			if name == "" {
+				unres("Update / Batch on a database that is not traced to a field")
+				return st
+			}
+			txHeld = lmID(lm{name, true})
+			if rec != nil {
+				rec(site{kind: siteAcquire, st: st, pos: ins.Pos(), acq: txHeld})
+			}
+			st = st.acquire(txHeld)
+		}
+	}
+	if txHeld >= 0 {
+		out := a.applyCallRest(fi, st, ins, c, rec)
+		return out.release(txHeld)
+	}
+	return a.applyCallRest(fi, st, ins, c, rec)
+}
+
+func (a *analysis) applyCallRest(fi *fnInfo, st relState, ins ssa.Instruction, c *ssa.CallCommon, rec func(site)) relState {
 	switch op := lockOpOf(c); op {
 	case opNone:
 	case opTry:
@@ -821,6 +1230,7 @@ func (a *analysis) analyze(fi *fnInfo, rec func(site)) bool {
 			}
 			tryID := a.tryLockCond(b)
 			nilID, nilEdge := a.nilGuardedLock(b)
+			txID, txErrEdge := a.beginErrCond(b)
 			for si, s := range b.Succs {
 				old := fi.in[s]
 				sst := st
@@ -831,6 +1241,11 @@ func (a *analysis) analyze(fi *fnInfo, rec func(site)) bool {
 				}
 				if nilID >= 0 && si == nilEdge {
 					sst = sst.acquire(nilID)
+				}
+				if txID >= 0 && si == txErrEdge && sst.add.has(txID) {
+					// `tx, err := db.Begin(true); if err != nil {...}`: no
+					// transaction, no writer lock on the error branch
+					sst.add = sst.add.without(txID)
 				}
 				nw := join(old, sst)
 				if nw != old {
@@ -855,6 +1270,7 @@ func (a *analysis) analyze(fi *fnInfo, rec func(site)) bool {
 		}
 	}
 	exit.def = set{}
+	exit.rem = exit.rem.minus(fi.txLocal)
 	ch := exit != fi.exit
 	fi.exit = exit
 	return ch
@@ -901,6 +1317,66 @@ func (a *analysis) tryLockCond(b *ssa.BasicBlock) int {
 		return -id - 2
 	}
 	return id
+}
+
+// beginErrCond: the block ends in `if err != nil` (or `== nil`) where err is the
+// error result of a db.Begin(true) call of this block: returns the abstract
+// lock and the index of the successor taken when Begin failed; -1 otherwise.
+func (a *analysis) beginErrCond(b *ssa.BasicBlock) (id, errEdge int) {
+	if len(b.Instrs) == 0 || len(b.Succs) != 2 {
+		return -1, 0
+	}
+	iff, ok := b.Instrs[len(b.Instrs)-1].(*ssa.If)
+	if !ok {
+		return -1, 0
+	}
+	cmp, ok := iff.Cond.(*ssa.BinOp)
+	if !ok || (cmp.Op != token.NEQ && cmp.Op != token.EQL) {
+		return -1, 0
+	}
+	v := cmp.X
+	if c, isConst := cmp.Y.(*ssa.Const); !isConst || !c.IsNil() {
+		if c, isConst = cmp.X.(*ssa.Const); !isConst || !c.IsNil() {
+			return -1, 0
+		}
+		v = cmp.Y
+	}
+	if u, isLoad := v.(*ssa.UnOp); isLoad && u.Op == token.MUL {
+		// err kept in memory (named result, captured): the last store of the block
+		al, isAlloc := u.X.(*ssa.Alloc)
+		if !isAlloc {
+			return -1, 0
+		}
+		v = nil
+		for i := len(b.Instrs) - 1; i >= 0; i-- {
+			if st, isStore := b.Instrs[i].(*ssa.Store); isStore && st.Addr == ssa.Value(al) {
+				v = st.Val
+				break
+			}
+		}
+		if v == nil {
+			return -1, 0
+		}
+	}
+	ex, ok := v.(*ssa.Extract)
+	if !ok || ex.Index != 1 {
+		return -1, 0
+	}
+	call, ok := ex.Tuple.(*ssa.Call)
+	if !ok || call.Block() != b || bboltOpOf(call.Common()) != bbBegin || len(call.Call.Args) < 2 {
+		return -1, 0
+	}
+	if c, isConst := call.Call.Args[1].(*ssa.Const); !isConst || c.Value == nil || c.Value.ExactString() != "true" {
+		return -1, 0
+	}
+	name := a.resolveDB(call.Call.Args[0], 0)
+	if name == "" {
+		return -1, 0
+	}
+	if cmp.Op == token.NEQ {
+		return lmID(lm{name, true}), 0
+	}
+	return lmID(lm{name, true}), 1
 }
 
 // nilGuardedLock recognises `if mu != nil { mu.Lock(); defer mu.Unlock() }`
@@ -1569,6 +2045,18 @@ type accessOut struct {
 	held  set
 }
 
+// acqOut: one acquisition site with everything held there (abstract locks
+// included).
+type acqOut struct {
+	Root string   `json:"root"`
+	Fn   string   `json:"fn"`
+	Held []string `json:"held"` // "lock:W" / "lock:R"
+	Acq  string   `json:"acq"`
+	AW   bool     `json:"acq_w"`
+	Pos  string   `json:"pos"`
+	held set
+}
+
 type orderOut struct {
 	Root string `json:"root"`
 	Fn   string `json:"fn"`
@@ -1591,6 +2079,120 @@ func coqBool(b bool) string {
 		return "true"
 	}
 	return "false"
+}
+
+func heldLock(hs string) (string, bool) {
+	i := strings.LastIndex(hs, ":")
+	return hs[:i], hs[i+1:] == "W"
+}
+
+// heldConflict mirrors Proofs/ConcGate.v [conflicts]: a common lock, held in
+// write mode in at least one of the two sets.
+func heldConflict(a, b []string) bool {
+	for _, x := range a {
+		xl, xw := heldLock(x)
+		for _, y := range b {
+			yl, yw := heldLock(y)
+			if xl == yl && (xw || yw) {
+				return true
+			}
+		}
+	}
+	return false
+}
+
+// rankSites adds the sites in order to an acyclic acquired-while-held relation
+// and ranks its locks by longest path.  out: the sites that would have closed a
+// cycle; cycle: for the first of them, that site followed by sites of the
+// accepted relation leading from the lock it acquires back to a lock it holds.
+func rankSites(sites []*acqOut) (ranks map[string]int, out []*acqOut, cycle []*acqOut) {
+	type edge struct {
+		to  string
+		via *acqOut
+	}
+	adj := map[string][]edge{}
+	known := map[string]bool{}
+	// path from `from` to any lock of targets through accepted sites
+	var path func(from string, targets map[string]bool, seen map[string]bool) ([]*acqOut, bool)
+	path = func(from string, targets map[string]bool, seen map[string]bool) ([]*acqOut, bool) {
+		if targets[from] {
+			return nil, true
+		}
+		if seen[from] {
+			return nil, false
+		}
+		seen[from] = true
+		for _, e := range adj[from] {
+			if p, ok := path(e.to, targets, seen); ok {
+				return append([]*acqOut{e.via}, p...), true
+			}
+		}
+		return nil, false
+	}
+	for _, o := range sites {
+		targets := map[string]bool{}
+		for _, h := range o.Held {
+			l, _ := heldLock(h)
+			targets[l] = true
+		}
+		known[o.Acq] = true
+		if len(targets) > 0 {
+			if p, closes := path(o.Acq, targets, map[string]bool{}); closes {
+				if len(out) == 0 {
+					cycle = append([]*acqOut{o}, p...)
+				}
+				out = append(out, o)
+				continue
+			}
+		}
+		for y := range targets {
+			known[y] = true
+			adj[y] = append(adj[y], edge{o.Acq, o})
+		}
+	}
+	preds := map[string][]string{}
+	for y, es := range adj {
+		for _, e := range es {
+			preds[e.to] = append(preds[e.to], y)
+		}
+	}
+	ranks = map[string]int{}
+	var rankOf func(l string) int
+	rankOf = func(l string) int {
+		if r, ok := ranks[l]; ok {
+			return r
+		}
+		ranks[l] = 1 // the accepted relation is acyclic; this only guards the recursion
+		r := 1
+		for _, y := range preds[l] {
+			if x := rankOf(y) + 1; x > r {
+				r = x
+			}
+		}
+		ranks[l] = r
+		return r
+	}
+	for l := range known {
+		rankOf(l)
+	}
+	return ranks, out, cycle
+}
+
+func writeIfChanged(out, text string) {
+	os.MkdirAll(filepath.Dir(out), 0o755)
+	old, _ := os.ReadFile(out)
+	if string(old) == text {
+		return
+	}
+	tmp := fmt.Sprintf("%s.tmp%d", out, os.Getpid())
+	err := os.WriteFile(tmp, []byte(text), 0o644)
+	if err == nil {
+		err = os.Rename(tmp, out) // readers see the old or the new table, never a partial one
+	}
+	if err != nil {
+		fmt.Fprintln(os.Stderr, "locktable:", err)
+		os.Exit(2)
+	}
 }
 
 func main() {
@@ -1649,7 +2251,8 @@ func main() {
 	a := &analysis{prog: prog, fset: prog.Fset, repoDir: repo, repoPkgs: map[*types.Package]bool{},
 		fns: map[*ssa.Function]*fnInfo{}, guards: guards, mutators: mutators,
 		invokeMem: map[string][]*ssa.Function{}, fvFlow: map[string]map[*ssa.Function]bool{},
-		unresolved: map[string]string{}, addrEscapes: map[string]string{}, byStruct: map[string][]string{}}
+		unresolved: map[string]string{}, addrEscapes: map[string]string{}, byStruct: map[string][]string{},
+		abstract: map[string]string{}, readTxns: map[string]string{}}
 	for k := range guards {
 		if i := strings.LastIndex(k, "."); i > 0 {
 			a.byStruct[k[:i]] = append(a.byStruct[k[:i]], k)
@@ -1763,6 +2366,7 @@ func main() {
 			break
 		}
 	}
+	a.bindTxParams()
 	// summaries to a fixpoint
 	stable := false
 	for i := 0; i < 30 && !stable; i++ {
@@ -1813,6 +2417,7 @@ func main() {
 	}
 	accs := map[string]*accessOut{}
 	ords := map[string]*orderOut{}
+	acqs := map[string]*acqOut{}
 	reachedFns := map[*ssa.Function]bool{}
 	unbalanced := map[string]string{}
 	freshCalls := map[string]string{}   // helper methods entered on an unpublished receiver
@@ -1849,8 +2454,25 @@ func main() {
 				case siteGo:
 					// separate thread: a root of its own (found by findRoots)
 				case siteAcquire:
+					{
+						al := lmByID[s.acq]
+						ao := &acqOut{Root: r.name, Fn: a.fnName(c.fn), Acq: al.Lock, AW: al.W, Pos: a.posStr(s.pos), held: h}
+						for _, id := range h.elems() {
+							x := lmByID[id]
+							ao.Held = append(ao.Held, x.Lock+":"+coqMode(x.W))
+						}
+						k := fmt.Sprint(ao.Fn, ao.Held, ao.Acq, ao.AW, ao.Pos)
+						if _, ok := acqs[k]; !ok {
+							acqs[k] = ao
+						}
+					}
 					for _, id := range h.elems() {
 						hl, al := lmByID[id], lmByID[s.acq]
+						if a.abstract[hl.Lock] != "" || a.abstract[al.Lock] != "" {
+							// pairs with an abstract lock are judged on the acquisition
+							// sites (gate criterion), the pair table stays sync-only
+							continue
+						}
 						o := &orderOut{Root: r.name, Fn: a.fnName(c.fn), Held: hl.Lock, HW: hl.W, Acq: al.Lock, AW: al.W, Pos: a.posStr(s.pos)}
 						k := fmt.Sprint(o.Fn, o.Held, o.HW, o.Acq, o.AW, o.Pos)
 						if _, ok := ords[k]; !ok {
@@ -1949,6 +2571,158 @@ func main() {
 		return fmt.Sprint(x.Held, x.Acq, x.Pos, x.HW, x.AW) < fmt.Sprint(y.Held, y.Acq, y.Pos, y.HW, y.AW)
 	})
 
+	var aql []*acqOut
+	for _, o := range acqs {
+		aql = append(aql, o)
+	}
+	sort.Slice(aql, func(i, j int) bool {
+		x, y := aql[i], aql[j]
+		// per site, the contexts with fewer locks first (they make the shorter witnesses)
+		return fmt.Sprintf("%v %v %v %v %04d %v", x.Acq, x.Pos, x.AW, x.Fn, len(x.Held), x.Held) < fmt.Sprintf("%v %v %v %v %04d %v", y.Acq, y.Pos, y.AW, y.Fn, len(y.Held), y.Held)
+	})
+	// keys of the known findings of C05 (KNOWN_FINDINGS.txt is only read)
+	var known []string
+	if b, err := os.ReadFile(filepath.Join(verif, "KNOWN_FINDINGS.txt")); err == nil {
+		re := regexp.MustCompile(`(?m)^finding:\s+property=C05\s+key=(\S+)`)
+		for _, m := range re.FindAllStringSubmatch(string(b), -1) {
+			known = append(known, m[1])
+		}
+	}
+	sort.Strings(known)
+	knownSet := map[string]bool{}
+	for _, k := range known {
+		knownSet[k] = true
+	}
+	// the sites the gate criterion is checked on: those without a listed pair
+	// (Proofs/LockTableGate.v, checked_sites_of)
+	var aqlChecked []*acqOut
+	for _, o := range aql {
+		listed := false
+		for _, h := range o.Held {
+			l, _ := heldLock(h)
+			if knownSet[l+"<"+o.Acq+"@"+o.Fn] {
+				listed = true
+			}
+		}
+		if !listed {
+			aqlChecked = append(aqlChecked, o)
+		}
+	}
+
+	// Ranking hints for the gate criterion (Proofs/LockTableGate.v).  Coq only
+	// CHECKS them (a wrong or useless hint makes the check fail, never pass);
+	// the rankings themselves are too expensive to compute inside Coq.
+	//   global: the sites are added one by one to an acyclic sub-relation; a
+	//   site that would close a cycle is left out.  Ranks = longest path.
+	//   per left-out site d: the same for the sub-table {d} + sites compatible
+	//   with d (no common lock held in write mode by one of the two); if that
+	//   sub-table has a cycle the criterion is violated and one cycle is
+	//   reported with its sites.
+	globalRanks, leftOutSites, _ := rankSites(aqlChecked)
+	var leftOut []string
+	type subHint struct {
+		site  *acqOut
+		ranks map[string]int
+	}
+	var subHints []subHint
+	var gateViolations []map[string]any
+	for _, d := range leftOutSites {
+		leftOut = append(leftOut, d.Fn+"@"+d.Pos)
+		sub := []*acqOut{d}
+		for _, o := range aqlChecked {
+			if !heldConflict(d.Held, o.Held) {
+				sub = append(sub, o)
+			}
+		}
+		ranks, out, cyc := rankSites(sub)
+		subHints = append(subHints, subHint{d, ranks})
+		if len(out) > 0 {
+			var steps []map[string]any
+			for _, c := range cyc {
+				steps = append(steps, map[string]any{"fn": c.Fn, "pos": c.Pos, "root": c.Root, "held": c.Held, "acquires": c.Acq + ":" + coqMode(c.AW)})
+			}
+			gateViolations = append(gateViolations, map[string]any{
+				"site":  map[string]any{"fn": d.Fn, "pos": d.Pos, "root": d.Root, "held": d.Held, "acquires": d.Acq + ":" + coqMode(d.AW)},
+				"cycle": steps,
+			})
+		}
+	}
+	var rankNames []string
+	for l := range globalRanks {
+		rankNames = append(rankNames, l)
+	}
+	sort.Strings(rankNames)
+	rankOf := func(l string) int { return globalRanks[l] }
+
+	var absNames []string
+	for k := range a.abstract {
+		absNames = append(absNames, k)
+	}
+	sort.Strings(absNames)
+	{
+		var ab strings.Builder
+		ab.WriteString("(* GENERATED by tools/locktable from the current source; do not edit. *)\n")
+		ab.WriteString("From Coq Require Import List String.\nFrom AGH Require Import Base.Conc Model.Guards.\nImport ListNotations.\nLocal Open Scope string_scope.\n\n")
+		ab.WriteString("(* locks that are not sync mutexes of the repository: what they stand for *)\n")
+		ab.WriteString("Definition abstract_locks : list (string * string) := [\n")
+		for i, k := range absNames {
+			sep := ";"
+			if i == len(absNames)-1 {
+				sep = ""
+			}
+			fmt.Fprintf(&ab, "  (%s, %s)%s\n", coqStr(k), coqStr(a.abstract[k]), sep)
+		}
+		ab.WriteString("].\n\n(* ranking hint (checked, not trusted): longest path in an acyclic sub-relation *)\n")
+		ab.WriteString("Definition acq_rank_hint : list (string * nat) := [\n")
+		for i, l := range rankNames {
+			sep := ";"
+			if i == len(rankNames)-1 {
+				sep = ""
+			}
+			fmt.Fprintf(&ab, "  (%s, %d)%s\n", coqStr(l), rankOf(l), sep)
+		}
+		ab.WriteString("].\n\n(* ranking hints for the sub-tables of the sites the global hint leaves out (checked, not trusted) *)\n")
+		ab.WriteString("Definition acq_sub_rank_hints : list (acq_site * list (string * nat)) := [\n")
+		for i, h := range subHints {
+			var hs []string
+			for _, id := range h.site.held.elems() {
+				x := lmByID[id]
+				hs = append(hs, "("+coqStr(x.Lock)+", "+coqMode(x.W)+")")
+			}
+			var names []string
+			for l := range h.ranks {
+				names = append(names, l)
+			}
+			sort.Strings(names)
+			var rs []string
+			for _, l := range names {
+				rs = append(rs, fmt.Sprintf("(%s, %d)", coqStr(l), h.ranks[l]))
+			}
+			sep := ";"
+			if i == len(subHints)-1 {
+				sep = ""
+			}
+			fmt.Fprintf(&ab, "  (AcqSite %s %s [%s] (%s, %s) %s,\n   [%s])%s\n", coqStr(h.site.Root), coqStr(h.site.Fn), strings.Join(hs, "; "),
+				coqStr(h.site.Acq), coqMode(h.site.AW), coqStr(h.site.Pos), strings.Join(rs, "; "), sep)
+		}
+		ab.WriteString("].\n\n(* every acquisition site reachable from a root, with ALL locks held there *)\n")
+		ab.WriteString("Definition acquisitions : list acq_site := [\n")
+		for i, o := range aql {
+			var hs []string
+			for _, id := range o.held.elems() {
+				x := lmByID[id]
+				hs = append(hs, "("+coqStr(x.Lock)+", "+coqMode(x.W)+")")
+			}
+			sep := ";"
+			if i == len(aql)-1 {
+				sep = ""
+			}
+			fmt.Fprintf(&ab, "  AcqSite %s %s [%s] (%s, %s) %s%s\n", coqStr(o.Root), coqStr(o.Fn), strings.Join(hs, "; "), coqStr(o.Acq), coqMode(o.AW), coqStr(o.Pos), sep)
+		}
+		ab.WriteString("].\n")
+		writeIfChanged(filepath.Join(verif, "coq/Gen/LockTableAcq.v"), ab.String())
+	}
+
 	// ---- Coq
 	var sb strings.Builder
 	sb.WriteString("(* GENERATED by tools/locktable from the current source; do not edit. *)\n")
@@ -1982,15 +2756,6 @@ func main() {
 		}
 		fmt.Fprintf(&sb, "  (%s, %s)%s\n", coqStr(u[0]), coqStr(u[1]), sep)
 	}
-	// keys of the known findings of C05 (KNOWN_FINDINGS.txt is only read)
-	var known []string
-	if b, err := os.ReadFile(filepath.Join(verif, "KNOWN_FINDINGS.txt")); err == nil {
-		re := regexp.MustCompile(`(?m)^finding:\s+property=C05\s+key=(\S+)`)
-		for _, m := range re.FindAllStringSubmatch(string(b), -1) {
-			known = append(known, m[1])
-		}
-	}
-	sort.Strings(known)
 	sb.WriteString("].\n\nDefinition known_keys : list string := [\n")
 	for i, k := range known {
 		sep := ";"
@@ -2008,27 +2773,15 @@ func main() {
 		fmt.Fprintf(&sb, "  %s%s\n", coqStr(r.name+" = "+a.fnName(r.fn)), sep)
 	}
 	sb.WriteString("].\n")
-	out := filepath.Join(verif, "coq/Gen/LockTable.v")
-	os.MkdirAll(filepath.Dir(out), 0o755)
-	old, _ := os.ReadFile(out)
-	if string(old) != sb.String() {
-		tmp := fmt.Sprintf("%s.tmp%d", out, os.Getpid())
-		err := os.WriteFile(tmp, []byte(sb.String()), 0o644)
-		if err == nil {
-			err = os.Rename(tmp, out) // readers see the old or the new table, never a partial one
-		}
-		if err != nil {
-			fmt.Fprintln(os.Stderr, "locktable:", err)
-			os.Exit(2)
-		}
-	}
+	writeIfChanged(filepath.Join(verif, "coq/Gen/LockTable.v"), sb.String())
 	// ---- JSON side output
 	var rn []string
 	for _, r := range roots {
 		rn = append(rn, r.name+" = "+a.fnName(r.fn))
 	}
 	js := map[string]any{"known_keys": known, "accesses": al, "lock_order": ol, "unresolved": unres, "roots": rn,
-		"address_escapes": a.addrEscapes, "atomic_fields": atomicFields, "fresh_receiver_helpers": freshCalls, "fresh_receiver_accesses_skipped": freshSkipped, "functions_reached": len(reachedFns), "functions_total": len(a.order), "guarded_fields": len(guards)}
+		"address_escapes": a.addrEscapes, "atomic_fields": atomicFields, "fresh_receiver_helpers": freshCalls, "fresh_receiver_accesses_skipped": freshSkipped, "functions_reached": len(reachedFns), "functions_total": len(a.order), "guarded_fields": len(guards),
+		"acquisitions": aql, "abstract_locks": a.abstract, "acquisitions_outside_rank_hint": leftOut, "gate_violations": gateViolations, "bbolt_read_transactions_left_out": a.readTxns}
 	os.MkdirAll(filepath.Join(verif, "work"), 0o755)
 	f, err := os.Create(filepath.Join(verif, "work", "locktable.json"))
 	if err == nil {
@@ -2046,6 +2799,6 @@ func main() {
 			}
 		}
 	}
-	fmt.Printf("locktable: %d roots, %d/%d functions reached, %d accesses (%d not under their guard), %d order pairs, %d unresolved\n",
-		len(roots), len(reachedFns), len(a.order), len(al), bad, len(ol), len(unres))
+	fmt.Printf("locktable: %d roots, %d/%d functions reached, %d accesses (%d not under their guard), %d order pairs, %d acquisition sites, %d abstract locks, %d unresolved\n",
+		len(roots), len(reachedFns), len(a.order), len(al), bad, len(ol), len(aql), len(absNames), len(unres))
 }
